@@ -21,7 +21,7 @@ FILES = [
     "qucumber/utils/data.py",
 ]
 REQUIRED_THEOREMS = ["C07_partition", "C07_own_basis", "C07_sizes", "C07_zip_truncation", "C07_negative", "C07_refbasis",
-                     "C07_fit_batches", "C07_no_mutation"]
+                     "C07_fit_batches", "C07_no_mutation", "C07_fit_epoch"]
 RULE = ("case = session on one state object (kind [positive: no bases; complex/density: bases], n) of 1..3 consecutive fit calls, "
         "each call = (N, pos_batch_size B, neg_batch_size in {None, 0, B, other incl. > B and > N}, epochs 1..3, data container in "
         "{tensor(double/float32/int64/uint8), non-contiguous tensor views (transposed / strided with offset), ndarray(float64/"
@@ -29,7 +29,8 @@ RULE = ("case = session on one state object (kind [positive: no bases; complex/d
         "all-Z row as C-order / Fortran-order / strided-view array; data object and bases object of a later call: new / the same "
         "object again / the same object overwritten in place); covers N < B, N = mB, N = mB + r; thorough enumerates single calls "
         "N <= 12 x B <= 13 x neg in {None, B, other}; plus a malformed stream (B = 0, no reference-basis row, bases of the wrong "
-        "length, also as the second call of a session) and direct `_shuffle_data` calls with arbitrary num_batches; non-trivial "
+        "length, also as the second call of a session: outside the quantifier, informational counters only) and direct `_shuffle_data` calls "
+        "(verdict only for num_batches = ceil(N/B), the only value fit passes; other values informational); non-trivial "
         "iff N >= 2 and a recorded permutation is not the identity; distinct by hash of the case")
 EXTRA_TRUSTED = [
     "C07: torch.randperm(N) returns a permutation of 0..N-1 and torch.randint(high, size) returns `size` values below `high` "
@@ -221,8 +222,45 @@ def property_oracle(data, bases, B, negB_eff, mirror, ep):
     return True, None
 
 
+def effect_oracle(data, bases, B, negB_eff, mirror, batches):
+    """the property judged by EFFECT alone: `batches` = [(pos, neg, basesbatch|None)] actually handed to compute_batch_gradients in one epoch.
+    No reference to how the randomness was drawn. returns (ok, detail)"""
+    N = len(data)
+    nb = -(-N // B)
+    if len(batches) != nb:
+        return False, f"{len(batches)} batches, expected ceil({N}/{B}) = {nb}"
+    sizes = [len(p) for p, _, _ in batches]
+    if sizes[:-1] != [B] * (nb - 1) or sizes[-1] != N - (nb - 1) * B or not (1 <= sizes[-1] <= B):
+        return False, f"batch sizes {sizes}"
+    flat = [tuple(r) for p, _, _ in batches for r in p]
+    if collections.Counter(flat) != collections.Counter(tuple(r) for r in data):
+        return False, "positive batches are not a permutation (as a multiset) of the data rows"
+    if bases is not None:
+        if any(bb is None for _, _, bb in batches):
+            return False, "bases supplied but a batch came without its bases"
+        if [len(bb) for _, _, bb in batches] != sizes:
+            return False, "bases batch sizes differ from sample batch sizes"
+        flatb = [tuple(r) for _, _, bb in batches for r in bb]
+        if collections.Counter(zip(flat, flatb)) != collections.Counter((tuple(d), tuple(b)) for d, b in zip(data, bases)):
+            return False, "some row is not paired with its own basis row"
+        zrows = {tuple(d) for d, b in zip(data, bases) if all(c == "Z" for c in b)}
+        for _, ng, _ in batches:
+            if len(ng) != negB_eff or any(tuple(r) not in zrows for r in ng):
+                return False, "negative batch not neg_batch_size reference-basis rows"
+    else:
+        allrows = {tuple(r) for r in data}
+        for p, ng, bb in batches:
+            if bb is not None:
+                return False, "bases batch without bases"
+            if any(tuple(r) not in allrows for r in ng):
+                return False, "negative row is not a training row"
+            if len(ng) != negB_eff and not (mirror and ng == p):
+                return False, "negative batch: neither neg_batch_size rows nor (equal sizes, no bases) the positive batch itself"
+    return True, None
+
+
 # ------------------------------------------------------------------ one session = consecutive fit calls on one state object
-RUN_KEYS = ("N", "B", "neg", "epochs", "form", "data", "bases", "malformed")
+RUN_KEYS = ("N", "B", "neg", "epochs", "form", "data", "bases", "malformed", "defaults")
 
 
 def as_session(case):
@@ -300,30 +338,61 @@ def one_call(ctx, case, st, kind, run, r_idx, state):
 
     st.compute_batch_gradients = cbg
     err = None
+    from qucumber.callbacks import LambdaCallback
+
+    marks = LambdaCallback(on_epoch_start=lambda s_, e_: rec.log.append(("epoch", int(e_))))
     rec.install()
     try:
         kw = {"input_bases": bases_obj} if kind != "pos" else {}
-        st.fit(data_obj, epochs=epochs, pos_batch_size=B, neg_batch_size=neg, k=1, lr=0.01, progbar=False, **kw)
+        if run.get("defaults"):  # the documented default call: fit(data[, input_bases=...]) -> pos_batch_size=100, neg=None, epochs=100, k=1
+            st.fit(data_obj, callbacks=[marks], **kw)
+        else:
+            st.fit(data_obj, epochs=epochs, pos_batch_size=B, neg_batch_size=neg, k=1, lr=0.01, progbar=False, callbacks=[marks], **kw)
     except Exception as e:
         err = type(e).__name__
     finally:
         rec.uninstall()
         del st.compute_batch_gradients
 
-    # split the log into epochs
-    eps = []
+    # split the log into epochs BY EFFECT: an epoch = the batches handed to compute_batch_gradients after an on_epoch_start event; the random
+    # draws made since the previous epoch's last batch (fit shuffles before on_epoch_start) are attached to it
+    eps, pending = [], []
     for en in rec.log:
-        if en[0] == "perm":
-            eps.append({"perm": en[2], "permN": en[1], "negIdx": [], "randint": None, "batches": [], "storages": []})
-        elif en[0] == "randint" and eps:
-            eps[-1]["negIdx"] = en[3]
-            eps[-1]["randint"] = [en[1], en[2][0] if en[2] else 0]
-        elif en[0] == "batch" and eps:
+        if en[0] in ("perm", "randint"):
+            if eps and eps[-1]["open"] and not eps[-1]["batches"]:
+                eps[-1]["rng"].append(en)  # drawn lazily, after the epoch started and before its first batch
+            else:
+                pending.append(en)
+        elif en[0] == "epoch":
+            if eps:
+                eps[-1]["open"] = False
+            eps.append({"rng": pending, "batches": [], "storages": [], "open": True})
+            pending = []
+        elif en[0] == "batch":
+            if not eps:
+                eps.append({"rng": pending, "batches": [], "storages": [], "open": True})
+                pending = []
             eps[-1]["batches"].append((en[1], en[2], en[3]))
             eps[-1]["storages"].append(en[4])
+            if pending:  # draws made between two batches of the same epoch: not the modelled consumption
+                eps[-1]["rng"] = eps[-1]["rng"] + pending
+                eps[-1]["late_rng"] = True
+                pending = []
+    # does the code consume randomness the way the model scripts it (ONE randperm(N), then at most ONE randint for the whole epoch)?
+    for ep in eps:
+        kinds_ = [en[0] for en in ep["rng"]]
+        ep["as_modelled"] = kinds_ in (["perm"], ["perm", "randint"]) and not ep.get("late_rng")
+        ep["perm"] = ep["rng"][0][2] if ep["as_modelled"] else None
+        ep["permN"] = ep["rng"][0][1] if ep["as_modelled"] else None
+        ep["negIdx"], ep["randint"] = [], None
+        if ep["as_modelled"] and len(ep["rng"]) == 2:
+            en = ep["rng"][1]
+            ep["negIdx"] = en[3]
+            ep["randint"] = [en[1], en[2][0] if en[2] else 0]
+    scripted = bool(eps) and all(ep["as_modelled"] for ep in eps)
     negB_eff = neg if neg else B
     mirror = bases is None and negB_eff == B
-    if N >= 2 and any(ep["perm"] != sorted(ep["perm"]) for ep in eps):
+    if N >= 2 and any([r for p_, _, _ in ep["batches"] for r in p_] != [list(map(int, r)) for r in data] for ep in eps):
         state["nontriv"] = True
     if state["perm0"] is None and eps:
         state["perm0"] = eps[0]["perm"]
@@ -332,6 +401,7 @@ def one_call(ctx, case, st, kind, run, r_idx, state):
                 f"shape={'N<B' if N < B else ('N=mB' if N % B == 0 else 'N=mB+r')}" if B else "shape=B=0", f"epochs={epochs}",
                 f"dup_rows={len({tuple(r) for r in data}) < N}", f"call#{r_idx}:data_obj={mode_d}"):
         ctx.count(key)
+    ctx.count("call form=" + ("fit(data) with every option defaulted" if run.get("defaults") else "explicit batch sizes / epochs"))
     if bases is not None:
         ctx.count(f"call#{r_idx}:bases_obj={mode_b}")
         ctx.count(f"bases_form={run.get('bases_form', 'c')}")
@@ -341,29 +411,62 @@ def one_call(ctx, case, st, kind, run, r_idx, state):
     # ---- oracles on the implementation
     if not expect_error:
         ctx.oracle("fit raised", err is None, case, detail=err, sig=f"{sig}/exception")
-        ctx.oracle("one shuffle per epoch", len(eps) == epochs, case, detail={"shuffles": len(eps)}, sig=f"{sig}/epochs")
+        ctx.oracle("one pass over the data per requested epoch", len(eps) == epochs, case, detail={"epochs_run": len(eps), "requested": epochs}, sig=f"{sig}/epochs")
+        ctx.count("random draws consumed as modelled (one randperm, at most one randint per epoch)" if scripted else
+                  "random draws NOT consumed as modelled: scripted comparison with the model skipped, verdict from the effect oracle")
         for e_i, ep in enumerate(eps):
+            # the property judged by effect (no reference to the random draws)
+            ok, detail = effect_oracle(data, bases, B, negB_eff, mirror, ep["batches"])
+            ctx.oracle("epoch batches satisfy the property (by effect: partition with own bases, sizes, negative rows from the allowed pool)", ok,
+                       {**case, "epoch": e_i}, detail=detail, sig=f"{sig}/property", theorem="C07_partition, C07_own_basis, C07_sizes, C07_negative")
+            if not scripted:
+                continue
+            # sharper restatement available when the draws are consumed as modelled: the batches are the data re-indexed by THE recorded permutation
             ok, detail = property_oracle(data, bases, B, negB_eff, mirror, ep)
-            ctx.oracle("epoch batches satisfy the property", ok, {**case, "epoch": e_i}, detail=detail, sig=f"{sig}/property",
-                       theorem="C07_partition, C07_own_basis, C07_sizes, C07_negative")
+            ctx.oracle("epoch batches are the data re-indexed by the recorded permutation / z_samples[recorded randint]", ok, {**case, "epoch": e_i}, detail=detail,
+                       sig=f"{sig}/property", theorem="C07_partition, C07_own_basis, C07_sizes, C07_negative")
             if ep["randint"] is not None:
                 high, size = ep["randint"]
                 ctx.oracle("randint result in range", len(ep["negIdx"]) == size and all(0 <= i < high for i in ep["negIdx"]), case,
                            sig=f"{sig}/randint-range")
+    if expect_error == "no-Z-row":
+        # bases supplied, no row measured entirely in the reference basis: the property allows negative chains to start ONLY from
+        # reference-basis rows, so a run that is not refused must not hand out any negative row (which exception refuses it is not constrained)
+        handed = sum(len(ng) for ep in eps for _, ng, _ in ep["batches"])
+        ctx.oracle("bases supplied without a reference-basis row: no negative-phase row may be handed out (there is no admissible one)", handed == 0, case,
+                   detail={"negative_rows_handed_out": handed, "raised": err}, sig=f"{sig}/negative-not-refbasis", theorem="C07_negative, C07_refbasis")
     ctx.oracle("caller's data unchanged (bytes, identity, dtype)", after_d == snap_d, case, sig=f"{sig}/no-mutation-data", theorem="C07_no_mutation")
     ctx.oracle("caller's bases unchanged", after_b == snap_b, case, sig=f"{sig}/no-mutation-bases", theorem="C07_no_mutation")
-    ctx.oracle("no batch shares memory with the caller's objects", not any(alias), case, sig=f"{sig}/no-alias", theorem="C07_no_mutation")
+    # informational only: the property says the caller's objects are never MODIFIED (checked above, bytes + identity); whether a
+    # batch is a view of the caller's storage is an implementation choice the property text does not constrain
+    ctx.count("batches share memory with the caller's objects" if any(alias) else "no batch shares memory with the caller's objects")
 
     # ---- correspondence with the model (fed the data of THIS call)
     if ctx.driver is None:
         return
+    if not expect_error and not scripted:
+        # the model (QV.Batching.shuffleData) takes the randperm / randint results as inputs: when the code draws its randomness differently the
+        # theorems can no longer be tied to it. Reported ONCE per run as a broken CORRESPONDENCE (auxiliary point, stable signature); the property
+        # itself is judged by the effect oracles above (so the verdict is "no failing input found" unless one of them fails).
+        if not ctx.__dict__.get("_c07_noted"):
+            ctx._c07_noted = True
+            ctx.note("C07: the implementation does not consume torch.randperm/torch.randint as the model scripts it; the model comparison is skipped "
+                     "for such runs and the verdict comes from the effect oracles evaluated on the batches actually consumed")
+            ctx.point("random draws consumed as the model scripts them (one randperm(N), then at most one randint per epoch)", "aux",
+                      [[en[0] for en in ep["rng"]][:6] for ep in eps][:3], [["perm"], ["perm", "randint"]], case, exact=True,
+                      sig=f"{kind}/rng-not-consumed-as-modelled", theorem="C07_fit_batches")
+        return
     if expect_error:
-        perm = eps[0]["perm"] if eps else list(range(N))
+        perm = (eps[0]["perm"] if eps and eps[0]["perm"] else None) or list(range(N))
         m = ctx.driver.call("c07.epoch", data=data, bases=bases, posB=B, negB=neg, perm=perm, negIdx=[])
         merr = m["prep"].get("error") or m["out"].get("error")
-        ctx.point("error kind", "aux", err, merr, case, exact=True, sig=f"{sig}/error")
+        # malformed input is outside the property's quantifier (N >= 1, batch sizes >= 1, a reference-basis row, bases of the data's
+        # length): which exception is raised is not constrained by the property text -> informational counter, no verdict
+        ctx.count(f"malformed[{expect_error}]: error kind " + ("agrees with the model" if err == merr else f"differs (impl {err}, model {merr})"))
         return
     for e_i, ep in enumerate(eps):
+        if len(eps) > 6 and e_i not in (0, 1, len(eps) // 2, len(eps) - 1):
+            continue  # long default runs: the model is compared on 4 epochs, the effect oracles ran on every epoch
         c2 = {**case, "epoch": e_i}
         m = ctx.driver.call("c07.epoch", data=data, bases=bases, posB=B, negB=neg, perm=ep["perm"], negIdx=ep["negIdx"])
         mo = m["out"]
@@ -373,7 +476,7 @@ def one_call(ctx, case, st, kind, run, r_idx, state):
             continue
         impl_b = [{"pos": p, "neg": ng, "bases": bb} for p, ng, bb in ep["batches"]]
         ctx.point("batches", "property", impl_b, mo["batches"], c2, exact=True, sig=f"{sig}/batches",
-                  theorem="C07_partition, C07_own_basis, C07_sizes, C07_negative, C07_fit_batches")
+                  theorem="C07_fit_epoch (= C07_partition, C07_own_basis, C07_sizes, C07_negative composed with C07_fit_batches, C07_refbasis)")
         ctx.point("num_batches", "property", len(impl_b), m["prep"]["numBatches"], c2, exact=True, sig=f"{sig}/num-batches", theorem="C07_sizes")
         ctx.point("randint request", "aux", ep["randint"], mo["randint"], c2, exact=True, sig=f"{sig}/randint")
         ctx.point("randperm N", "aux", ep["permN"], len(m["prep"]["train"]), c2, exact=True, sig=f"{sig}/randperm")
@@ -381,8 +484,9 @@ def one_call(ctx, case, st, kind, run, r_idx, state):
         if "error" not in mh:
             mkeys = [k for r in mh["refs"] for k in (("p", r["pos"][0]), ("n", r["neg"][0])) + ((("b", r["bases"][0]),) if r["bases"] else ())]
             ikeys = [k for s in ep["storages"] for k in (("p", s[0]), ("n", s[1])) + ((("b", s[2]),) if s[2] else ())]
-            ctx.point("storage sharing pattern of the batches", "aux", canon([k[1] for k in ikeys]), canon([k[1] for k in mkeys]), c2,
-                      exact=True, sig=f"{sig}/aliasing")
+            # which fresh tensors the batches are views of (one shuffled copy sliced vs. one gather per batch) is an implementation
+            # choice: informational counter only
+            ctx.count("storage-sharing pattern of the batches " + ("as in epochOnHeap" if canon([k[1] for k in ikeys]) == canon([k[1] for k in mkeys]) else "differs from epochOnHeap"))
             ctx.point("model frame", "aux", True, mh["callers_unchanged"] and all(r["pos"][0] >= mh["before"] for r in mh["refs"]), c2,
                       exact=True, sig=f"{sig}/frame")
 
@@ -414,28 +518,51 @@ def one_direct(ctx, case):
         rec.uninstall()
     perm = next((en[2] for en in rec.log if en[0] == "perm"), list(range(N)))
     negIdx = next((en[3] for en in rec.log if en[0] == "randint"), [])
+    scripted = [en[0] for en in rec.log] in (["perm"], ["perm", "randint"])  # random draws consumed as the model scripts them
     ctx.case({k: case[k] for k in case if k != "dseed"}, nontrivial=N >= 2 and perm != sorted(perm))
     ctx.count("direct_shuffle_calls")
-    ctx.count(f"direct:nb{'<' if nb < -(-N // B) else ('=' if nb == -(-N // B) else '>')}ceil")
+    ceil_nb = -(-N // B)
+    # `fit` always passes num_batches = ceil(N / pos_batch_size): only such calls of the private helper are inside the property's
+    # quantifier and carry a verdict; calls with an inconsistent num_batches (the zip-truncation statement C07_zip_truncation is a theorem
+    # about the MODEL's zip) are evaluated for information only
+    in_scope = nb == ceil_nb
+    ctx.count(f"direct:nb{'<' if nb < ceil_nb else ('=' if in_scope else '>')}ceil" + ("" if in_scope else " (informational)"))
     sig = f"{kind}/shuffle-direct"
     if bases is not None:
         zexp = [d for d, b in zip(data, bases) if all(c == "Z" for c in b)]
         ctx.oracle("extract_refbasis_samples == rows whose basis is all Z, in order", zl == zexp, case, detail={"impl": zl, "expected": zexp},
                    sig=f"{kind}/refbasis-oracle", theorem="C07_refbasis")
+    # whatever iterable is returned has been materialised with list(); batches are compared by VALUE
+    impl_b = None
+    if err is None:
+        impl_b = [{"pos": rows_int(t[0]), "neg": rows_int(t[1]), "bases": bases_rows(t[2]) if len(t) > 2 else None} for t in out]
+    if in_scope:
+        ctx.oracle("direct _shuffle_data call with fit's arguments does not raise", err is None, case, detail=err, sig=f"{sig}/exception")
+        if impl_b is not None:
+            ctx.oracle("number of batches = ceil(N/B)", len(impl_b) == ceil_nb, case, detail={"len": len(impl_b), "expected": ceil_nb},
+                       sig=f"{sig}/num-batches", theorem="C07_sizes")
+            ok_e, det_e = effect_oracle(data, bases, B, negB, bases is None and negB == B, [(b_["pos"], b_["neg"], b_["bases"]) for b_ in impl_b])
+            ctx.oracle("direct call with fit's arguments: batches satisfy the property (by effect)", ok_e, case, detail=det_e, sig=f"{sig}/property",
+                       theorem="C07_partition, C07_own_basis, C07_sizes, C07_negative")
     if ctx.driver is None:
         return
     if bases is not None:
         mz = ctx.driver.call("c07.refbasis", samples=data, bases=bases)
         ctx.point("extract_refbasis_samples", "property", zl, mz.get("z"), case, exact=True, sig=f"{kind}/refbasis", theorem="C07_refbasis")
-    m = ctx.driver.call("c07.shuffle", perm=perm, negIdx=negIdx, posB=B, negB=negB, numBatches=nb, samples=data, bases=bases, zSamples=zl)
-    if err is not None or "error" in m:
-        ctx.point("direct _shuffle_data error kind", "aux", err, m.get("error"), case, exact=True, sig=f"{sig}/error")
+    if not scripted:
+        ctx.count("direct: random draws NOT consumed as modelled (model comparison skipped)")
         return
-    impl_b = [{"pos": rows_int(t[0]), "neg": rows_int(t[1]), "bases": bases_rows(t[2]) if len(t) > 2 else None} for t in out]
-    ctx.point("direct _shuffle_data batches", "aux", impl_b, m["batches"], case, exact=True, sig=f"{sig}/batches", theorem="C07_zip_truncation")
-    want = -(-N // B) if (bases is None and negB == B) else min(-(-N // B), nb)
-    ctx.oracle("zip length = min(ceil(N/B), num_batches)", len(out) == want, case, detail={"len": len(out), "expected": want},
-               sig=f"{sig}/zip-length", theorem="C07_zip_truncation")
+    m = ctx.driver.call("c07.shuffle", perm=perm, negIdx=negIdx, posB=B, negB=negB, numBatches=nb, samples=data, bases=bases, zSamples=zl)
+    if not in_scope:
+        agree = (err is not None or "error" in m) and err == m.get("error") or (impl_b is not None and impl_b == m.get("batches"))
+        ctx.count("direct (num_batches != ceil, informational): " + ("as the model's zip" if agree else "differs from the model's zip"))
+        return
+    if impl_b is None or "error" in m:
+        if "error" in m:
+            ctx.point("model error on a direct call with fit's arguments", "aux", err, m.get("error"), case, exact=True, sig=f"{sig}/error")
+        return
+    ctx.point("direct _shuffle_data batches (by value)", "aux", impl_b, m["batches"], case, exact=True, sig=f"{sig}/batches",
+              theorem="C07_partition, C07_own_basis, C07_sizes, C07_negative")
 
 
 # ------------------------------------------------------------------ generation
@@ -517,6 +644,15 @@ def gen_cases(ctx, thorough):
             for kind in kinds:
                 n = rng.choice([2, 2, 3]) if kind != "dens" else 2
                 yield ("fit", {"kind": kind, "n": n, "runs": [gen_run(rng, kind, n, N, B, negmode)], "dseed": rng.randrange(1 << 30)})
+    # the documented default call form on a large data set: fit(data) -> pos_batch_size = 100, neg_batch_size = None, 100 epochs (float ceil(N / 100));
+    # N = 1000 (N = mB) and, thorough, N = 1037 (N = mB + r) and a complex state with bases
+    big = [("pos", 1000)] + ([("pos", 1037), ("cplx", 250)] if thorough else [])
+    for kind, N in big:
+        n = 2
+        data, bases = gen_data(rng, kind, n, N)
+        yield ("fit", {"kind": kind, "n": n, "dseed": rng.randrange(1 << 30), "runs": [
+            {"N": N, "B": 100, "neg": None, "epochs": 100, "form": rng.choice(["tensor_f64", "ndarray_f64", "list"]), "data": data, "bases": bases,
+             "bases_form": "c", "defaults": True}]})
     # sessions: consecutive calls on the same state object
     for i in range(500 if thorough else 60):
         kind = ["cplx", "dens", "pos"][i % 3] if i % 4 else rng.choice(["cplx", "dens"])
